@@ -288,17 +288,45 @@ def dependency_walk_total(chk, rid):
   application clones and which rules a recursion covers.  A call can sit
   anywhere in a rule - inside a list literal, a record, an aggregated value -
   so the extraction walks the WHOLE tree: no key of the syntax tree is skipped
-  on the way from BuildDirectArgsOfPredicate down."""
+  on the way from BuildDirectArgsOfPredicate down.  A walker with a set of
+  keys to skip is total when that set is empty at this entry (and stays so in
+  its recursive calls)."""
+  from sa import tables as _t
   repo = chk.repo
   bw = repo.func('functors.Functors.BuildDirectArgsOfWalk')
   problems = []
 
+  def is_empty(e):
+    if e is None:
+      return False
+    try:
+      return not _t.const_value(e)
+    except AnalysisError:
+      return False
+
+  def own_params(fi):
+    ps = list(fi.params)
+    if fi.cls is not None and ps and ps[0] in ('self', 'cls'):
+      ps = ps[1:]
+    return ps
+
+  def defaults(fi):
+    a = fi.node.args
+    pos = a.posonlyargs + a.args
+    out = {}
+    for p_, d in zip(pos[len(pos) - len(a.defaults):], a.defaults):
+      out[p_.arg] = d
+    for p_, d in zip(a.kwonlyargs, a.kw_defaults):
+      if d is not None:
+        out[p_.arg] = d
+    return out
+
   def key_filters(fn_node):
+    """(compare, name of the container the key is tested against or None)"""
     out = []
     for x in ast.walk(fn_node):
       if isinstance(x, ast.Compare) and len(x.ops) == 1 and \
           isinstance(x.ops[0], (ast.In, ast.NotIn, ast.Eq, ast.NotEq)):
-        # a test on a dict key while iterating the dict
         names = {n_.id for n_ in ast.walk(x.left) if isinstance(n_, ast.Name)}
         for y in ast.walk(fn_node):
           tg = None
@@ -308,42 +336,47 @@ def dependency_walk_total(chk, rid):
               and not (isinstance(x.comparators[0], ast.Constant) and x.comparators[0].value is None):
             it_text = norm(y.iter, 80)
             if '.items()' in it_text or isinstance(y.iter, ast.Name) or '.keys()' in it_text:
-              out.append(x)
+              out.append((x, dotted(x.comparators[0])))
     return out
+
   seen = set()
-  todo = [bw]
+  todo = [(bw, frozenset())]           # (function, parameters known to be empty)
   while todo:
-    fi = todo.pop()
-    if fi.fq in seen:
+    fi, empty = todo.pop()
+    if (fi.fq, empty) in seen:
       continue
-    seen.add(fi.fq)
+    seen.add((fi.fq, empty))
     for c in walk_local(fi.node):
-      if isinstance(c, ast.Call):
-        taboo = kwarg(c, 'taboo', 2)
-        if call_tail(c) in ('Walk', 'WalkWithTaboo') and taboo is not None:
-          try:
-            from sa import tables as _t
-            empty = not _t.const_value(taboo)
-          except AnalysisError:
-            empty = False
-          if not empty:
-            problems.append('%s skips the keys %s' % (fi.qualname, norm(taboo, 40)))
-        for t in repo.resolve(fi, c):
-          if t.startswith('functors.') and t not in seen and t.split('.')[-1] in (
-              'Walk', 'WalkWithTaboo', 'BuildDirectArgsOfWalk'):
-            try:
-              todo.append(repo.func(t))
-            except AnalysisError:
-              pass
-    if fi.name != 'WalkWithTaboo':
-      for x in key_filters(fi.node):
-        problems.append('%s skips dict entries by key (`%s`)' % (fi.qualname, norm(x, 40)))
+      if not isinstance(c, ast.Call):
+        continue
+      for t in repo.resolve(fi, c):
+        if not (t.startswith('functors.') and t.split('.')[-1] in (
+            'Walk', 'WalkWithTaboo', 'BuildDirectArgsOfWalk')):
+          continue
+        try:
+          callee = repo.func(t)
+        except AnalysisError:
+          continue
+        ps = own_params(callee)
+        dflt = defaults(callee)
+        callee_empty = set()
+        for i_, p_ in enumerate(ps):
+          a_ = c.args[i_] if i_ < len(c.args) else kwarg(c, p_)
+          if a_ is None:
+            if p_ in dflt and is_empty(dflt[p_]):
+              callee_empty.add(p_)
+          elif is_empty(a_) or (isinstance(a_, ast.Name) and a_.id in empty):
+            callee_empty.add(p_)
+        todo.append((callee, frozenset(callee_empty)))
+    for x, against in key_filters(fi.node):
+      if against in empty:
+        continue                       # `k not in taboo` with taboo empty here
+      problems.append('%s skips dict entries by key (`%s`)' % (fi.qualname, norm(x, 40)))
   chk.ob(rid, not problems, None,
          'the extraction of the predicates a rule calls walks the whole rule (no key skipped)',
          '%s: a predicate called only below such a key (e.g. inside a list literal) is '
          'not a dependency any more - a functor application leaves it un-substituted, '
          'a recursion does not cover it' % '; '.join(problems[:2]), fi=bw)
-
 
 # engines whose SELECT attaches an aggregate to the OUTER query when its
 # argument mentions outer columns only (SQL standard scoping): their dialect
